@@ -184,13 +184,15 @@ c.log('-simulate %s: %d behaviours -> %d distinct series' % (sname, len(sb), len
 # ---- 2. spec -> code: every case on the real functions ----
 f = write_cases('cases', all_cases + sim_cases)
 res = c.run_harness(binp, ['-mode', 'cases', '-in', f, '-random', str(nrandom)], timeout=1500)
+c.log('replayed %d cases (%d evaluations on the real code, %d distinct series keys, %d random pairs): %d mismatches'
+      % (res['behaviours'], res['steps'], res['stats'].get('distinct_series_keys', 0), nrandom, res['stats'].get('violations_total', 0)))
+# violations of the property (round trip, injectivity, order) first: a key that deviates from the model's bytes is only a
+# note about the model, what the deviation does to the property is decided on the real functions
+reproduce_and_report(res, 'tlc-cases+random')
 if res['inconclusive']:
     c.inconclusive('; '.join(res['inconclusive'][:5]))
 if res['behaviours'] != len(all_cases) + len(sim_cases):
     c.inconclusive('harness executed %d of %d cases' % (res['behaviours'], len(all_cases) + len(sim_cases)))
-c.log('replayed %d cases (%d evaluations on the real code, %d distinct series keys, %d random pairs): %d mismatches'
-      % (res['behaviours'], res['steps'], res['stats'].get('distinct_series_keys', 0), nrandom, res['stats'].get('violations_total', 0)))
-reproduce_and_report(res, 'tlc-cases+random')
 
 # ---- 3. binding self-test: corrupt the real encoder's output inside the harness; it must be reported ----
 # (a small slice of the cases is enough; results stay out of the verdict)
